@@ -62,8 +62,11 @@ const c07Rule = "case = (method, content-type header, body bytes) sent to the re
 	"distinct = distinct (header, body); non-trivial = the bytes get past the codec (valid JSON document, or a multipart form net/http accepts)"
 
 const c07SDL = `
-type Query { ping: String  echo(s: String): String  user(id: ID!): User }
-type User { id: ID!  name: String }
+type Query { ping: String  echo(s: String): String  user(id: ID!): User  ghost: Ghost  named: Named  thing: Thing }
+type User implements Named { id: ID!  name: String }
+interface Ghost { x: String }
+interface Named { name: String }
+union Thing = User
 type Mutation { inc: Int  upload(file: Upload, files: [Upload]): String }
 scalar Upload
 `
